@@ -202,7 +202,7 @@ var propFuncs = map[string][]string{
 	// as upstream builds it
 	"C15": {`^\(\*http2\.serverConn\)\.(newWriterAndRequest|newWriterAndRequestNoBody|canonicalHeader)$`},
 	"C18": {`^\(\*?http2\.(writeResHeaders|writePushPromise|write100ContinueHeadersFrame)\)`, `^http2\.(encodeHeaders|encKV|splitHeaderBlock)$`, `^\(\*http2\.serverConn\)\.(HeaderEncoder|processSetting|writeHeaders|write100ContinueHeaders)$`, `^\(\*http2\.Framer\)\.(readMetaFrame|WriteHeaders|WriteContinuation|WritePushPromise)$`},
-	"C10": {`^http2\.(parse|read)`, `^\(\*http2\.Framer\)\.(ReadFrame|readMetaFrame|checkFrameOrder|maxHeaderStringLen|maxHeaderListSize)`, `^\(\*http2\.serverConn\)\.(readFrames|writeFrameAsync|serve|notePanic|runHandler|sendServeMsg|readPreface|processFrameFromReader|setConnState|onSettingsTimer|onIdleTimer|onReadIdleTimer|onShutdownTimer|handlePingTimer)$`,
+	"C10": {`^http2\.(getDataBufferChunk|putDataBufferChunk)$`, `^\(\*http2\.dataBuffer\)`, `^http2\.(parse|read)`, `^\(\*http2\.Framer\)\.(ReadFrame|readMetaFrame|checkFrameOrder|maxHeaderStringLen|maxHeaderListSize)`, `^\(\*http2\.serverConn\)\.(readFrames|writeFrameAsync|serve|notePanic|runHandler|sendServeMsg|readPreface|processFrameFromReader|setConnState|onSettingsTimer|onIdleTimer|onReadIdleTimer|onShutdownTimer|handlePingTimer)$`,
 		`^\(\*http2\.Server\)\.(ServeConn|serveConn)$`, `^\(\*http2\.stream\)\.(onReadTimeout|onWriteTimeout)$`, `\)\.(writeFrame|staysWithinBuffer|writeHeaderBlock)$`, `^\(\*http2\.(SettingsFrame|MetaHeadersFrame|HeadersFrame|DataFrame|FrameHeader)\)`, `^http2\.(splitHeaderBlock|terminalReadFrameError|isClosedConnError)`},
 	"C11": {`^\(\*http2\.serverConn\)\.(serve|readFrames|writeFrameAsync|closeAllStreamsOnConnClose|stopShutdownTimer|closeStream|onSettingsTimer|onIdleTimer|onReadIdleTimer|onShutdownTimer|handlePingTimer|sendServeMsg|readPreface|startGracefulShutdown|startGracefulShutdownInternal|goAway|shutDownIn|scheduleFrameWrite|wroteFrame|processHeaders|newStream|runHandler|handlerDone|writeFrameFromHandler|writeDataFromHandler|writeHeaders|noteBodyReadFromHandler)$`,
 		`^\(\*http2\.Server\)\.(ServeConn|serveConn|afterFunc|newTimer|now|markNewGoroutine)$`, `^\(\*http2\.stream\)\.(onReadTimeout|onWriteTimeout)$`, `^\(http2\.timeTimer\)`, `^\(\*http2\.responseWriter\)\.(SetReadDeadline|SetWriteDeadline|CloseNotify|handlerDone)`, `^http2\.(h1ServerKeepAlivesDisabled|configFromServer|fillNetHTTPServerConfig|setConfigDefaults|setDefault)`},
